@@ -31,6 +31,8 @@ func register(p *propDef) { registry[p.id] = p }
 func usage() {
 	fmt.Fprintln(os.Stderr, `usage:
   kverif check <Cxx> [--tier quick|thorough] [--overlay variant.json] [--no-evidence]
+  kverif multi [--overlay variant.json] <Cxx>...   several properties on one load of the tree (quick tier, no evidence);
+                                   prints "== PROP Cxx" / "== EXIT Cxx <code>" around each property's output
   kverif explain <replay.json>
   kverif selftest [<Cxx>]          run the seeded in-memory variants and expect their reports
   kverif ssa <pkgpath-suffix> <func>   (debug) dump SSA of a function
@@ -45,6 +47,8 @@ func main() {
 	switch os.Args[1] {
 	case "check":
 		os.Exit(cmdCheck(os.Args[2:]))
+	case "multi":
+		os.Exit(cmdMulti(os.Args[2:]))
 	case "explain":
 		os.Exit(cmdExplain(os.Args[2:]))
 	case "selftest":
@@ -248,38 +252,88 @@ func runVariants(prop string) variantResult {
 	if n, err := strconv.Atoi(os.Getenv("KVERIF_WORKERS")); err == nil && n > 0 {
 		workers = n
 	}
+	// one subprocess per variant: the variant's tree is loaded once and checked under every property it lists
+	byVariant := map[string][]int{}
+	var order []string
+	for i, j := range jobs {
+		if _, ok := byVariant[j.vf]; !ok {
+			order = append(order, j.vf)
+		}
+		byVariant[j.vf] = append(byVariant[j.vf], i)
+	}
 	sem := make(chan struct{}, workers)
 	var wg sync.WaitGroup
-	for i, j := range jobs {
+	for _, vf := range order {
+		idxs := byVariant[vf]
 		wg.Add(1)
 		sem <- struct{}{}
-		go func(i int, j job) {
+		go func(vf string, idxs []int) {
 			defer wg.Done()
 			defer func() { <-sem }()
-			cmd := exec.Command(self, "check", j.prop, "--overlay", j.vf, "--no-evidence")
+			propSet := map[string]bool{}
+			var props []string
+			for _, i := range idxs {
+				if !propSet[jobs[i].prop] {
+					propSet[jobs[i].prop] = true
+					props = append(props, jobs[i].prop)
+				}
+			}
+			args := append([]string{"multi", "--overlay", vf}, props...)
+			cmd := exec.Command(self, args...)
 			cmd.Env = os.Environ()
 			o, _ := cmd.CombinedOutput()
-			code := cmd.ProcessState.ExitCode()
-			switch {
-			case code == 3:
-				out[i] = res{line: j.name + ": SKIPPED (stale context)", skipped: true}
-			case j.clean && code == 0:
-				out[i] = res{line: j.name + ": silent as expected"}
-			case j.clean:
-				first := ""
-				for _, ln := range strings.Split(string(o), "\n") {
-					if strings.HasPrefix(ln, "REPORT") {
-						first = ln
-						break
+			whole := cmd.ProcessState.ExitCode()
+			// split the output per property
+			section := map[string]string{}
+			codes := map[string]int{}
+			cur := ""
+			for _, ln := range strings.Split(string(o), "\n") {
+				switch {
+				case strings.HasPrefix(ln, "== PROP "):
+					cur = strings.TrimPrefix(ln, "== PROP ")
+				case strings.HasPrefix(ln, "== EXIT "):
+					f := strings.Fields(strings.TrimPrefix(ln, "== EXIT "))
+					if len(f) == 2 {
+						n, _ := strconv.Atoi(f[1])
+						codes[f[0]] = n
 					}
+					cur = ""
+				case cur != "":
+					section[cur] += ln + "\n"
 				}
-				out[i] = res{line: fmt.Sprintf("%s: FALSE ALARM (exit %d) %s", j.name, code, first), fail: true}
-			case code == 1 && (j.rule == "" && strings.Contains(string(o), "REPORT rule=") || j.rule != "" && strings.Contains(string(o), "REPORT rule="+j.rule+" ")):
-				out[i] = res{line: j.name + ": reported as expected"}
-			default:
-				out[i] = res{line: fmt.Sprintf("%s: NOT reported (exit %d)", j.name, code), fail: true}
 			}
-		}(i, j)
+			for _, i := range idxs {
+				j := jobs[i]
+				code, seen := codes[j.prop]
+				text := section[j.prop]
+				if !seen {
+					code = whole
+					if code == 0 {
+						code = 2
+					}
+					text = string(o)
+				}
+				switch {
+				case whole == 3 && !seen:
+					out[i] = res{line: j.name + ": SKIPPED (stale context)", skipped: true}
+				case j.clean && code == 0:
+					out[i] = res{line: j.name + ": silent as expected"}
+				case j.clean:
+					first := ""
+					for _, ln := range strings.Split(text, "\n") {
+						if strings.HasPrefix(ln, "REPORT") {
+							first = ln
+							break
+						}
+					}
+					out[i] = res{line: fmt.Sprintf("%s: FALSE ALARM (exit %d) %s", j.name, code, first), fail: true}
+				case code == 1 && (j.rule == "" && strings.Contains(text, "REPORT rule=") || j.rule != "" && strings.Contains(text, "REPORT rule="+j.rule+" ")):
+					out[i] = res{line: j.name + ": reported as expected"}
+				default:
+					out[i] = res{line: fmt.Sprintf("%s: NOT reported (exit %d)", j.name, code), fail: true}
+				}
+			}
+		}(vf, idxs)
 	}
 	wg.Wait()
 	for i, o := range out {
@@ -442,4 +496,74 @@ func init() {
 		}
 		os.Exit(0)
 	}
+}
+
+// cmdMulti runs several properties on one load of the tree (two when some of them want the checked-in outputs and some do
+// not). Used by the self-test and the sweep over seeded changes, where the same tree is checked under many properties.
+func cmdMulti(args []string) int {
+	overlayPath := ""
+	var ids []string
+	for i := 0; i < len(args); i++ {
+		if args[i] == "--overlay" && i+1 < len(args) {
+			i++
+			overlayPath = args[i]
+			continue
+		}
+		ids = append(ids, args[i])
+	}
+	if len(ids) == 0 {
+		usage()
+	}
+	ov, spec, err := readOverlay(overlayPath, repoRoot())
+	if err != nil {
+		if _, stale := err.(errOverlayStale); stale {
+			fmt.Println("SKIP:", err)
+			return 3
+		}
+		fmt.Println("ERROR:", err)
+		return 2
+	}
+	if spec != nil {
+		fmt.Printf("overlay variant %q applied in memory (%d file(s))\n", spec.Name, len(ov))
+	}
+	loaded := map[bool]*Loaded{}
+	loadErr := map[bool]error{}
+	worst := 0
+	for _, id := range ids {
+		def := registry[id]
+		if def == nil {
+			fmt.Fprintf(os.Stderr, "unknown property %s\n", id)
+			return 2
+		}
+		fmt.Println("== PROP", id)
+		code := func() (code int) {
+			c := &Ctx{Prop: def.id, Tier: "quick", FuncsSeen: map[string]bool{}, start: time.Now(),
+				Explanation: def.explanation, NotDecided: def.notDecided, Assumptions: def.assumptions, Extra: map[string]any{}}
+			if _, done := loaded[def.withTestdata]; !done && loadErr[def.withTestdata] == nil {
+				L, err := load(loadOpts{withTestdata: def.withTestdata, overlay: ov})
+				loaded[def.withTestdata], loadErr[def.withTestdata] = L, err
+			}
+			if err := loadErr[def.withTestdata]; err != nil {
+				c.L = &Loaded{Repo: repoRoot()}
+				c.undecided(def.id+".0", "load", err.Error())
+				return c.finish(false)
+			}
+			c.L = loaded[def.withTestdata]
+			defer func() {
+				if r := recover(); r != nil {
+					c.undecided(def.id+".0", "panic", fmt.Sprintf("checker panic: %v", r))
+					code = c.finish(false)
+				}
+			}()
+			def.run(c)
+			crossRegistered(c)
+			c.Exhaustive = countUndecided(c.Finds) == 0
+			return c.finish(false)
+		}()
+		fmt.Println("== EXIT", id, code)
+		if code > worst {
+			worst = code
+		}
+	}
+	return worst
 }
